@@ -154,7 +154,7 @@ fn queue_file_blocks(
     status_channel: &Arc<dyn StatusUpdater>,
     config: &Arc<Config>,
 ) -> Result<u64> {
-    let handle = CopyHandle::new(source, dest, config)?;
+    let handle = CopyHandle::new(source, dest, config, status_channel)?;
     let len = handle.metadata.len();
 
     if handle.try_reflink()? {
